@@ -535,6 +535,8 @@ class AbsInt:
             return Opaque(e.attr)
         if isinstance(base, ExtRef):
             return ExtRef(f'{base.name}.{e.attr}')
+        if _is_concrete(base) and not isinstance(base, (list, dict, set)) and not hasattr(base, e.attr):
+            raise AbsRaise('AttributeError', e, implicit=True, msg=e.attr)
         return ('attr', base, e.attr)
 
     def _v_Tuple(self, e, env, m):
